@@ -87,6 +87,11 @@ FAMILY_AFFINITY = {
     "gen:pad_conv": "group:fuse_pad_into_conv_rule,normalize_pad_format_conv_rule,fuse_batchnorm_into_conv_rule,fuse_batchnorm_into_gemm_rule",
     "gen:bn_conv": "group:fuse_pad_into_conv_rule,normalize_pad_format_conv_rule,fuse_batchnorm_into_conv_rule,fuse_batchnorm_into_gemm_rule",
     "gen:bn_gemm": "group:fuse_pad_into_conv_rule,normalize_pad_format_conv_rule,fuse_batchnorm_into_conv_rule,fuse_batchnorm_into_gemm_rule",
+    "gen:hardswish": "group:fuse_hardswish_rules,successive_clip_rule,successive_relu_clip_rule",
+    "gen:conv_affine": "group:conv_affine_fusion_rule,affine_conv_fusion_rule,fuse_batchnorm_into_conv_rule,remove_optional_bias_from_conv_rule",
+    "gen:expand_binary": "group:expand_before_binary_op_rules,no_op_expand_rule",
+    "gen:reshape_matmul": "group:two_reshapes_matmul_reshape_rule,one_reshape_matmul_reshape_rule,reshape_reshape_rule",
+    "gen:scatter_nd": "group:no_op_static_scatter_nd_rule,no_op_dynamic_scatter_nd_rule",
     "gen:reshape_reshape": "group:reshape_reshape_rule,flatten_to_reshape_rule,cast_cast_rule,transpose_transpose_rule,unsqueeze_unsqueeze_rule",
 }
 
@@ -145,7 +150,7 @@ def gen_targets(seed: int, tier: dict, pools) -> list[dict]:
                 add(with_id({"kind": kind, "model": m, "family": fam, **copy.deepcopy(params)}))
     # composed models: 2-3 members of opset-20 families side by side in one graph (several matches of one rule, or of
     # different rules, in one traversal; several outputs; duplicated initializers)
-    compose_fams = [f for f in gen_fams if f not in ("rms_norm", "layer_norm", "gelu", "fold_chain")]
+    compose_fams = [f for f in gen_fams if f not in ("rms_norm", "layer_norm", "gelu", "fold_chain")]   # opset-20 families
     for i in range(tier.get("composed_models", 8)):
         r = rng.sub("compose", i)
         same = r.chance(0.5)
